@@ -16,6 +16,7 @@ Faults (armed per operation by the machine, placed *inside* export/import operat
 """
 import errno as _errno
 import posixpath
+import weakref
 
 from .core import SimCrash, Rng
 
@@ -103,6 +104,23 @@ class SimFile:
             raise OSError(f.get("errno", _errno.EIO), "simulated write error surfacing at close", self.path)
         if self.writing:
             self._spill()
+
+    def __del__(self):
+        # CPython closes a file object that goes out of scope; an error raised by that implicit close / flush is swallowed by the
+        # interpreter ("Exception ignored in ..."), the caller never sees it. A simulated crash cannot be raised from here:
+        # it fires at the next file-system call instead.
+        try:
+            if not self.closed and not self.disk.dead:
+                f = self.disk._event("close", allow_crash=False)
+                self.closed = True
+                if f is None and self.writing:
+                    self._spill()
+                else:
+                    self.buf = bytearray()
+                if self.disk.ctx is not None:
+                    self.disk.ctx.probe("file_closed_implicitly_by_the_interpreter")
+        except BaseException:
+            pass
 
     # -- reading
     def _content(self):
@@ -241,7 +259,8 @@ class SimDisk:
     def __init__(self, seed, bufsize=512):
         self.files = {}
         self.dirs = {"/", "/data"}
-        self.handles = set()
+        self.handles = weakref.WeakSet()
+        self.dead = False
         self.bufsize = bufsize
         self.rng = Rng(seed, "disk")
         self.armed = []
@@ -262,14 +281,14 @@ class SimDisk:
     def disarm(self):
         self.armed = []
 
-    def _event(self, kind):
+    def _event(self, kind, allow_crash=True):
         """Count a file-system call; return the fault spec that fires on it (or None); crash raises."""
         self.calls += 1
         self.counts[kind] = self.counts.get(kind, 0) + 1
         for f in self.armed:
             if f.get("done"):
                 continue
-            if f["kind"] == "crash" and f["nth"] == self.calls:
+            if f["kind"] == "crash" and f["nth"] <= self.calls and allow_crash:
                 f["done"] = True
                 self.fired.append("crash")
                 if self.ctx is not None:
@@ -290,7 +309,7 @@ class SimDisk:
         for h in list(self.handles):
             h.closed = True
             h.buf = bytearray()
-        self.handles = set()
+        self.handles = weakref.WeakSet()
 
     # ---- file API
     def _norm(self, p):
